@@ -133,6 +133,13 @@ func (fh filehandler) ServeHTTP(respWr http.ResponseWriter, req *http.Request) {
 			return
 		}
 
+		path = filepath.Clean(path)
+		if path == ".." || strings.HasPrefix(path, "../") || strings.Contains(path, "/../") || strings.HasSuffix(path, "/..") {
+			logger.Warn("bad request with .. in URL path")
+			respWr.WriteHeader(http.StatusBadRequest)
+			return
+		}
+
 		i := strings.LastIndex(path, "/")
 		if i < 0 || !validateFileName(path[i+1:]) {
 			logger = logger.WithField("status", http.StatusNotFound)
